@@ -741,6 +741,39 @@ def oracle(p):
                              members=mem_names, D=D)
             except Exception as e:  # noqa
                 fail(f"C06:{cname}:raises:{type(e).__name__}", f"{cname} of {mem_names} raises {type(e).__name__}: {str(e)[:200]}", members=mem_names, D=D)
+    # composites whose members have groups = N > 1, evaluated on ONE point set (batch 1): N maps of the same points, also in disp()/tensor()
+    for cname in ("SequentialTransform", "MultiLevelTransform"):
+        for D in (2, 3):
+            for kinds in (("DisplacementFieldTransform", "Translation"), ("Translation", "DisplacementFieldTransform"), ("Translation", "AnisotropicScaling")):
+                g = rgrid(rng, D)
+                try:
+                    members = [rand_transform(rng, nm, g, 2) for nm in kinds]
+                    comp = getattr(S, cname)(g, *members)
+                    with torch.no_grad():
+                        comp.update()
+                        x1 = torch.rand(1, 5, D) * 1.2 - 0.6
+                        if cname == "SequentialTransform":
+                            ref = x1
+                            for m in members:
+                                ref = m(ref)
+                        else:
+                            ref = x1 + sum(m(x1) - x1 for m in members)
+                        note(cname + ":groups=2:batch-1")
+                        for vn, fn in (("forward", lambda: comp(x1)), ("disp", lambda: comp.disp()), ("tensor", lambda: comp.tensor())):
+                            try:
+                                val = fn()
+                            except Exception as e:  # noqa
+                                fail(f"C06:{cname}.{vn}:{'linear' if comp.linear else 'generic'}:groups-N:batch-1-points:raises:{type(e).__name__}",
+                                     f"{cname} of {list(kinds)} with groups=2, {vn}() on one point set / own grid raises {type(e).__name__}: {str(e)[:140]}",
+                                     members=list(kinds), D=D)
+                                continue
+                            if val.shape[0] != 2:
+                                fail(f"C06:{cname}.{vn}:groups-N:batch-1-points:batch-size", f"{cname} of {list(kinds)} with groups=2: {vn}() has batch size {val.shape[0]}", members=list(kinds), D=D)
+                            elif vn == "forward" and float((val - ref).abs().max()) > tol:
+                                fail(f"C06:{cname}.forward:groups-N:batch-1-points:differs", f"{cname} of {list(kinds)} with groups=2 on one point set differs from the member-wise "
+                                     f"reference by {float((val - ref).abs().max()):.3g}", members=list(kinds), D=D)
+                except Exception as e:  # noqa
+                    fail(f"C06:{cname}:groups-N:raises:{type(e).__name__}", f"{cname} of {list(kinds)} with groups=2 raises {type(e).__name__}: {str(e)[:160]}", members=list(kinds), D=D)
     # all-linear multi-level composites of 3..5 levels: point map, matrix and dense field vs the member-wise sum of displacements
     for k in (3, 4, 5):
         for D in (2, 3):
